@@ -1297,6 +1297,12 @@ func (cf *config) judge(p *parsed) []finding {
 		{"user-agent", "user-agent", cf.Client.UA, cf.Req.UA}, {"referer", "referer", cf.Client.Referer, cf.Req.Referer}} {
 		want := pick1(x.rq, x.cl)
 		if want == "" {
+			// nothing configured: a referer must not appear from nowhere (the user agent has a
+			// default, which is not judged)
+			if got, _ := hv(x.name); x.comp == "referer" && len(got) > 0 && strings.Join(got, "") != "" {
+				out = append(out, finding{"fidelity|referer|unconfigured-value-arrived", "a Referer arrived although none is configured at either level",
+					map[string]any{"received": hx(got)}})
+			}
 			continue
 		}
 		got, _ := hv(x.name)
